@@ -131,6 +131,12 @@ func runFundProposal(ctx *action.Context, tx action.RawTx) (bool, action.Respons
 	}
 	//1. check if proposal exists
 
+	// the contribution must be a valid, non negative amount: a negative one would
+	// pay the funder out of the escrow
+	if !fundProposal.FundValue.IsValid(ctx.Currencies) {
+		return helpers.LogAndReturnFalse(ctx.Logger, action.ErrInvalidAmount, fundProposal.Tags(), errors.New("invalid fund value"))
+	}
+
 	proposal, err := ctx.ProposalMasterStore.Proposal.WithPrefixType(governance.ProposalStateActive).Get(fundProposal.ProposalId)
 	if err != nil {
 		return helpers.LogAndReturnFalse(ctx.Logger, governance.ErrProposalNotExists, fundProposal.Tags(), err)
